@@ -27,13 +27,42 @@ regenerates the JSON on every run (CommunityModules' CSVRead cannot read these f
 TLC cannot compare floats: equality of a returned double with float(text) is evaluated here and handed
 to TLC as one letter per CSV column (b/m/x).  Returned objects are never mutated (aliasing of the cached
 objects is C09's subject).
+
+Hardening round (HARDENING.md; all inside the quantifier "every row, near-miss names, wavelengths and
+densities in any units"):
+  * names (items 3, 8): besides the cut / extended / re-cased names TLC now enumerates (a) names tabulated
+    only in ANOTHER table than the one the entry point reads (elements and nuclides of the weight / mass
+    tables without a row in the scattering table), (b) other notations of every isotope ("He3", "He-3",
+    "3-He", "He_3", "^3He"), (c) the neighbouring mass numbers of every isotope - each with the outcome
+    the tables dictate; the state machine has a fourth negative control (a parser accepting "He3").
+  * number types, layouts, units (items 1, 2, 5, 7): wavelength and number density are handed over as
+    float64, float32, int64 or int32 (AtomTablesDefs!NumTypes; integer types only for integer values),
+    the wavelength as 0-d variable, list, unsorted list or transposed 2-d array (WavelengthLayouts; arrays
+    only with parameters without uncertainties - scipp refuses to broadcast variances, which is a
+    refusal, not an answer), the two cross-sections of a hand-made ScatteringParams in different units.
+    The expectation is computed from the numbers actually handed over (a float32 is taken as the exact
+    rational it is); tolerance 1e-14, and 1e-6 when an operand is float32 (a correct implementation may
+    then work in single precision: eps32 = 6e-8 per operation).
+  * second use (item 6): the same Material and the same wavelength variable are used twice (the second
+    result is judged, and the variable handed over must still hold the same numbers); the first use of a
+    unit is float32 / integer, float64 follows; at the end of the run a sample of lookups and attenuation
+    cases is evaluated again in reverse order (events with pass = 2; TLC checks they are the same cases).
+  * reference_wavelength() itself must be 1.7982 angstrom.
+  * self-tests (item 11): the corrupted events of the trace control derive from synthetic events built
+    from the tables and the specification's grid, not from what the implementation returned; violations
+    are reported before the control runs; a Z of any integral type is accepted.
 """
 
 from __future__ import annotations
 
 import json
+import math
+import numbers
 import os
+import threading
 from fractions import Fraction as F
+
+import numpy as np
 
 from .. import lib_atoms as A
 from ..core import MachineryError
@@ -43,11 +72,16 @@ from ..tlc import require_ok, write_ndjson
 WORKERS = int(os.environ.get('VERIF_TLC_WORKERS', '16'))
 
 RULE = ('names = first-column entries of the three bundled tables (all 4046 rows) and their near-miss names '
-        '(proper prefixes/suffixes, one character added, case changes, inserted blank, header words); '
+        '(proper prefixes/suffixes, one character added, case changes, inserted blank, header words, other '
+        'notations, neighbouring mass numbers, names tabulated only in another table); '
         'non-trivial = lookup of a tabulated name with at least one value, or a near-miss that is itself '
         'another tabulated name; attenuation: isotopes with both cross-sections tabulated')
 
-LENGTH_TO_M = {'angstrom': F(1, 10**10), 'nm': F(1, 10**9), 'pm': F(1, 10**12), 'm': F(1), 'um': F(1, 10**6)}
+LENGTH_TO_M = {'angstrom': F(1, 10**10), 'nm': F(1, 10**9), 'pm': F(1, 10**12), 'm': F(1), 'um': F(1, 10**6),
+               'mm': F(1, 1000), 'cm': F(1, 100), 'fm': F(1, 10**15)}
+AREA_TO_M2 = {'barn': F(1, 10**28), 'angstrom**2': F(1, 10**20), 'fm**2': F(1, 10**30), 'm**2': F(1), 'cm**2': F(1, 10**4),
+              'nm**2': F(1, 10**18), 'pm**2': F(1, 10**24)}
+SECOND = ' [second evaluation of the same case, after other calls]'
 
 
 def _name(cp):
@@ -90,7 +124,7 @@ def _lookup_scat(ctx, tb, name, tid):
     from scippneutron.atoms import ScatteringParams
 
     ev = {'ev': 'scat', 'tid': tid, 'cp': [ord(c) for c in name], 'out': 'ok', 'row': 0, 'pat': ['b'] * 16,
-          'units_ok': True, 'name_ok': True}
+          'units_ok': True, 'name_ok': True, 'pass': 1, 'of': 0}
     try:
         p = ScatteringParams.for_isotope(name)
     except Exception as e:  # noqa: BLE001  any exception = rejection
@@ -128,7 +162,7 @@ def _lookup_atom(ctx, tb, name, tid):
     from scippneutron.atoms import Atom
 
     ev = {'ev': 'atom', 'tid': tid, 'cp': [ord(c) for c in name], 'out': 'ok', 'wrow': 0, 'mrow': 0, 'z': 0,
-          'wpat': ['b', 'b'], 'mpat': ['b', 'b'], 'units_ok': True, 'name_ok': True}
+          'wpat': ['b', 'b'], 'mpat': ['b', 'b'], 'units_ok': True, 'name_ok': True, 'pass': 1, 'of': 0}
     try:
         a = Atom.for_isotope(name)
     except Exception as e:  # noqa: BLE001
@@ -144,7 +178,8 @@ def _lookup_atom(ctx, tb, name, tid):
     mf = mrow[1]['f'] if mrow else ['', '']
     try:
         ev['name_ok'] = a.isotope == name
-        ev['z'] = int(a.z) if isinstance(a.z, int) and not isinstance(a.z, bool) else -1
+        # the atomic number as a number: any integral type (int, numpy integer) is the same number
+        ev['z'] = int(a.z) if isinstance(a.z, numbers.Integral) and not isinstance(a.z, bool) and abs(int(a.z)) < 10**6 else -1
         w, e1 = _prop_or_none(a, 'atomic_weight')
         m, e2 = _prop_or_none(a, 'atomic_mass')
         for e in (e1, e2):
@@ -160,47 +195,155 @@ def _lookup_atom(ctx, tb, name, tid):
 
 
 # ------------------------------------------------------------------------------------------------ attenuation
-def _mu_event(ctx, tid, sp, n, n_unit_len, lam, lam_unit, sig_s, sig_a, sig_unit_m2, small=None, as_int=False):
-    """n: Fraction in 1/<n_unit_len>^3; lam: Fraction in lam_unit; sig_*: Fractions in units of sig_unit_m2 m^2."""
+def _as_type(x: F, typ):
+    """The number handed over for the rational x in number type typ, and its exact rational value."""
+    if typ in ('int64', 'int32'):
+        if x.denominator != 1 or abs(x) >= (2**31 if typ == 'int32' else 2**53):
+            raise MachineryError(f'{x} is not an {typ}')
+        return int(x), F(int(x))
+    v = float(np.float32(float(x))) if typ == 'float32' else float(x)
+    return v, F(v)
+
+
+def _types_for(x: F, exact_only):
+    """Number types in which x can be handed over; exact_only: only those that hold x exactly."""
+    out = []
+    for typ in ('float64', 'float32', 'int64', 'int32'):
+        if typ.startswith('int'):
+            if x.denominator == 1 and abs(x) < (2**31 if typ == 'int32' else 2**53):
+                out.append(typ)
+        elif not exact_only or F(float(np.float32(float(x))) if typ == 'float32' else float(x)) == x:
+            out.append(typ)
+    return out
+
+
+def _wavelength_var(vals, unit, typ, lay):
+    import scipp as sc
+
+    if lay == '0d':
+        return sc.scalar(vals[0], unit=unit, dtype=typ)
+    if lay in ('1d', '1d_unsorted'):
+        return sc.array(dims=['wavelength'], values=np.array(vals), unit=unit, dtype=typ)
+    k = len(vals) // 2                                   # '2d_transposed': dims (a: 2, b: k), memory order (b, a)
+    buf = np.ascontiguousarray(np.array(vals).reshape(2, k).T)
+    return sc.array(dims=['b', 'a'], values=buf, unit=unit, dtype=typ).transpose(['a', 'b'])
+
+
+def _mu_event(ctx, tid, S, first=None, of=0):
+    """One call of Material.attenuation_coefficient.  S (the case, kept for the second evaluation):
+      sp, n (Fraction, 1/n_unit^3), n_unit, lam (list of Fractions in lam_unit), lam_unit, ss_m2, sa_m2 (exact
+      cross-sections in m^2 of the numbers held by sp), wl_type, n_type, lay, twice, small (spec's integers)."""
     import scipp as sc
     from scippneutron.absorption import Material
 
-    nf, lf = float(n), float(lam)
+    lay, wl_type, n_type = S.get('lay', '0d'), S.get('wl_type', 'float64'), S.get('n_type', 'float64')
     ev = {'ev': 'mu', 'tid': tid, 'small': False, 'n': [0, 1], 'ss': [0, 1], 'sa': [0, 1], 'lam': [1, 1],
-          'want': [0, 1], 'raised': False, 'dim_ok': True, 'rel_ok': True}
-    # exact expectation in 1/m from the floats actually handed over
-    n_m3 = F(nf) / LENGTH_TO_M[n_unit_len] ** 3
-    lam_A = F(lf) * LENGTH_TO_M[lam_unit] / LENGTH_TO_M['angstrom']
-    want = n_m3 * (sig_s + sig_a * lam_A / A.REFERENCE_WAVELENGTH_ANGSTROM) * sig_unit_m2
-    if small is not None:
-        ev.update(small=True, **small)
-    info = {'n': f'{nf} 1/{n_unit_len}^3', 'lambda': f'{lf} {lam_unit}', 'want_per_m': float(want), 'want_exact': want}
+          'want': [0, 1], 'raised': False, 'dim_ok': True, 'rel_ok': True, 'kept': True,
+          'wl_type': wl_type, 'n_type': n_type, 'lay': lay, 'case': first['case'] if first else tid,
+          'pass': 2 if of else 1, 'of': of}
+    nv, n_exact = _as_type(S['n'], n_type)
+    lam = [_as_type(x, wl_type) for x in S['lam']]
+    # exact expectation in 1/m from the numbers actually handed over
+    n_m3 = n_exact / LENGTH_TO_M[S['n_unit']] ** 3
+    want = [n_m3 * (S['ss_m2'] + S['sa_m2'] * (le * LENGTH_TO_M[S['lam_unit']] / LENGTH_TO_M['angstrom'])
+                    / A.REFERENCE_WAVELENGTH_ANGSTROM) for _, le in lam]
+    if S.get('small') is not None:
+        ev.update(small=True, **S['small'])
+    info = {'n': f'{nv} 1/{S["n_unit"]}^3 ({n_type})', 'lambda': f'{[v for v, _ in lam]} {S["lam_unit"]} ({wl_type}, {lay})',
+            'want_per_m': [float(w) for w in want], 'want_exact': want[0], 'S': S,
+            'same_objects_used_twice': bool(S.get('twice'))}
+    tol = F(1, 10**6) if 'float32' in (wl_type, n_type) else F(1, 10**14)
     try:
-        mat = Material(sp, sc.scalar(nf, unit=f'1/{n_unit_len}**3'))
-        # an integer-valued wavelength may be handed over with an integer dtype: the number is the same
-        wl = sc.scalar(int(lf), unit=lam_unit, dtype='int64') if as_int and lf.is_integer() else sc.scalar(lf, unit=lam_unit)
+        pool, mkey = S.get('pool') if not of else None, (id(S['sp']), nv, S['n_unit'], n_type)
+        mat = pool.get(mkey) if pool is not None else None
+        if mat is None:
+            mat = Material(S['sp'], sc.scalar(nv, unit=f'1/{S["n_unit"]}**3', dtype=n_type))
+            if pool is not None:
+                pool[mkey] = mat                           # the same Material object serves several cases
+        info['material_object_used_before'] = bool(S.get('reused'))
+        wl = _wavelength_var([v for v, _ in lam], S['lam_unit'], wl_type, lay)
+        before = np.array(wl.values, copy=True)
         info['wavelength_dtype'] = str(wl.dtype)
         got = mat.attenuation_coefficient(wl)
+        if S.get('twice'):
+            got = mat.attenuation_coefficient(wl)      # same Material, same wavelength variable: judged
+        ev['kept'] = bool(np.array_equal(np.array(wl.values), before) and wl.unit == sc.Unit(S['lam_unit'])
+                          and str(wl.dtype) == wl_type)
     except Exception as e:  # noqa: BLE001
         ev['raised'] = True
         info['exc'] = repr(e)[:200]
         return ev, info
     try:
-        g = float(got.to(unit='1/m').value)
+        g = got.to(unit='1/m')
+        if set(g.dims) != set(wl.dims) or len(g.dims) != len(wl.dims):
+            raise ValueError(f'result has dims {g.dims}, wavelength has {wl.dims}')
+        if g.dims != wl.dims:
+            g = g.transpose(list(wl.dims))
+        gv = np.array(g.values, dtype=float).reshape(-1)
+        if gv.shape != (len(lam),):
+            raise ValueError(f'result has {gv.shape} elements')
     except Exception as e:  # noqa: BLE001
         ev['dim_ok'] = False
-        info['unit'] = str(got.unit)
+        info['unit'] = str(getattr(got, 'unit', None))
         info['exc'] = repr(e)[:200]
         return ev, info
-    info['got_per_m'] = g
-    import math
-    if not math.isfinite(g):
-        ev['rel_ok'] = False
-    elif want == 0:
-        ev['rel_ok'] = g == 0.0
-    else:
-        ev['rel_ok'] = bool(abs(F(g) - want) <= abs(want) * F(1, 10**14))
+    # flattened order of the variable (as it was BEFORE the call) = order in which the result is read back
+    order = {float(v): i for i, (v, _) in enumerate(lam)}
+    info['got_per_m'] = gv.tolist()
+    ok = True
+    for x, gi in zip(before.reshape(-1), gv, strict=True):
+        w = want[order[float(x)]] if float(x) in order else None
+        if w is None or not math.isfinite(gi):
+            ok = False
+        elif w == 0:
+            ok = ok and gi == 0.0
+        else:
+            ok = ok and abs(F(float(gi)) - w) <= abs(w) * tol
+    ev['rel_ok'] = bool(ok)
     return ev, info
+
+
+def _mu_key(ev, clause, second):
+    pres = []
+    if ev['lay'] != '0d':
+        pres.append(f'{ev["lay"]} wavelength')
+    if ev['wl_type'] != 'float64':
+        pres.append(f'{ev["wl_type"]} wavelength')
+    if ev['n_type'] != 'float64':
+        pres.append(f'{ev["n_type"]} density')
+    return (f'Material.attenuation_coefficient: {clause.replace("_", " ")}' + (f' [{", ".join(pres)}]' if pres else '')
+            + (SECOND if second else ''))
+
+
+class _Bg(threading.Thread):
+    """TLC runs next to the Python work of the driver (tlc.run gives every run its own metadir); not counted
+    by tlc.run (count=False): the main thread adds the states up after join()."""
+
+    def __init__(self, ctx, jobs):
+        super().__init__(daemon=True)
+        self.ctx, self.jobs, self.results, self.error = ctx, jobs, [], None
+
+    def run(self):
+        try:
+            for kw in self.jobs:
+                kw = dict(kw)
+                module, cfg = kw.pop('module'), kw.pop('cfg')
+                self.results.append((kw.get('expect_error', False), self.ctx.tlc(module, cfg, count=False, **kw)))
+        except BaseException as e:  # noqa: BLE001  re-raised by finish()
+            self.error = e
+
+    def finish(self, what):
+        self.join()
+        if self.error is not None:
+            raise self.error
+        for (neg, res), w in zip(self.results, what, strict=True):
+            if neg:
+                continue
+            require_ok(self.ctx, res, w)
+            self.ctx.states += res.generated
+            self.ctx.distinct_states += res.distinct
+            self.ctx.transitions += max(res.generated - 1, 0)
+        return [r for _, r in self.results]
 
 
 def run(ctx):
@@ -212,8 +355,17 @@ def run(ctx):
     ctx.assume('atomic_weight / atomic_mass raising ValueError is the documented way of returning nothing')
     ctx.assume('the CSV files next to the imported scippneutron.atoms are the bundled tables; they are read '
                'independently with Python\'s csv module')
+    ctx.assume('wavelength arrays are combined only with cross-sections that carry no uncertainty (scipp refuses to '
+               'broadcast variances); with a float32 operand the law is required to 1e-6 only')
     ctx.extra['tolerances'] = {'value': 'float(text) exactly', 'variance': 'float(text)**2 within 1 ulp',
-                               'attenuation': '1e-14 relative to the exact rational'}
+                               'attenuation': '1e-14 relative to the exact rational (1e-6 with a float32 operand)'}
+    import time
+    t_ = [time.time()]
+
+    def mark(name):
+        ctx.extra.setdefault('timing_s', {})[name] = round(time.time() - t_[0], 1)
+        t_[0] = time.time()
+
     t = A.read_tables()
     tb = Tables(t)
     full, mini = ctx.tmp / 'tables.json', ctx.tmp / 'mini.json'
@@ -222,23 +374,70 @@ def run(ctx):
     counts = (len(t['scat']), len(t['weights']), len(t['masses']))
     ctx.extra['rows'] = {'scat': counts[0], 'weights': counts[1], 'masses': counts[2]}
 
-    # ---- 1. design: memoised mechanism = declarative meaning; negative controls
+    # ---- 1. design: memoised mechanism = declarative meaning; negative controls (in the background)
     env = {'TABLES_FILE': mini}
-    res = ctx.tlc('atoms/MC_AtomTables.tla', 'MC_AtomTables.cfg', env=env, workers=WORKERS, timeout=900)
-    require_ok(ctx, res, 'AtomTables model (histories)')
-    res = ctx.tlc('atoms/MC_AtomTables.tla', 'MC_AtomTables_thorough.cfg' if ctx.thorough else 'MC_AtomTables_wide.cfg',
-                  env=env, workers=WORKERS, timeout=1500)
-    require_ok(ctx, res, 'AtomTables model (wide universe)')
-    for bug in ('cache_casefold', 'prefix_match', 'strip'):
-        ctx.tlc('atoms/MC_AtomTables.tla', f'Neg_AtomTables_{bug}.cfg', env=env, expect_error=True,
-                workers=WORKERS, timeout=300)
+    mod = 'atoms/MC_AtomTables.tla'
+    w2 = max(WORKERS // 2, 1)
+    bugs = ('cache_casefold', 'prefix_match', 'strip', 'renotation')
+    model_bg = _Bg(ctx, [{'module': mod, 'cfg': 'MC_AtomTables.cfg', 'env': env, 'workers': w2, 'timeout': 900},
+                         {'module': mod, 'cfg': 'MC_AtomTables_thorough.cfg' if ctx.thorough else 'MC_AtomTables_wide.cfg',
+                          'env': env, 'workers': w2, 'timeout': 1500}]
+                   + [{'module': mod, 'cfg': f'Neg_AtomTables_{bug}.cfg', 'env': env, 'expect_error': True,
+                       'workers': w2, 'timeout': 300} for bug in bugs])
+    model_bg.start()
 
-    # ---- 2. full tables: facts, near-miss cases, attenuation grid
-    near_f, att_f = ctx.tmp / 'near.ndjson', ctx.tmp / 'att.ndjson'
-    res = ctx.tlc('atoms/Cases_AtomTables.tla', workers=1, timeout=1500, count=False,
-                  env={'TABLES_FILE': full, 'NEAR_FILE': near_f, 'ATT_FILE': att_f,
-                       'STRIDE': 1 if ctx.thorough else 12})
-    require_ok(ctx, res, 'Cases_AtomTables')
+    # ---- 2. full tables: facts, near-miss cases, attenuation grid (constant evaluation, also in the background)
+    #         the evaluation is single-threaded: the cases of the two entry points come from two TLC processes
+    near_f, att_f = {p: ctx.tmp / f'near-{p}.ndjson' for p in ('scat', 'atom')}, ctx.tmp / 'att.ndjson'
+    cases_bg = {p: _Bg(ctx, [{'module': 'atoms/Cases_AtomTables.tla', 'cfg': None, 'workers': 1, 'timeout': 1500,
+                              'env': {'TABLES_FILE': full, 'NEAR_FILE': near_f[p], 'ATT_FILE': att_f, 'PART': p,
+                                      'STRIDE': 1 if ctx.thorough else 12}}]) for p in ('scat', 'atom')}
+    for b in cases_bg.values():
+        b.start()
+
+    events, infos = [], []
+
+    def add(ev, info=None):
+        events.append(ev)
+        infos.append(info)
+
+    # ---- 0. the constant of the law
+    try:
+        from scippneutron.atoms import reference_wavelength
+
+        ref = reference_wavelength()
+        rv = float(ref.to(unit='angstrom', dtype='float64').value)
+        if not abs(rv - 1.7982) <= 4e-16 * 1.7982:
+            ctx.violation('reference_wavelength() is not 1.7982 angstrom', {'got': repr(ref)[:200]})
+    except Exception as e:  # noqa: BLE001
+        ctx.violation(f'reference_wavelength() cannot be read as a length ({type(e).__name__})', {'exc': repr(e)[:200]})
+    ctx.case(nontrivial_id='reference_wavelength')
+
+    # ---- 3a. all rows, in a seeded random order, each looked up again later (memoised or not)
+    order = ([('scat', r['name']) for r in t['scat']] + [('atom', r['name']) for r in t['weights']]
+             + [('atom', r['name']) for r in t['masses']])
+    ctx.rng.shuffle(order)
+    repeats = ctx.rng.sample(order, 600 if ctx.thorough else 150)
+    first = {}
+    first_line = {}
+    for api, name in order + repeats + order[:100]:
+        ev, obj = (_lookup_scat if api == 'scat' else _lookup_atom)(ctx, tb, name, len(events))
+        add(ev, {'api': api, 'name': name})
+        key = (api, name)
+        sig = json.dumps({k: v for k, v in ev.items() if k != 'tid'}, sort_keys=True)
+        if key in first and first[key] != sig:
+            ctx.violation(f'{api} lookup: a repeated lookup of the same name gives a different answer',
+                          {'name': name, 'first': first[key], 'again': sig})
+        first.setdefault(key, sig)
+        first_line.setdefault(key, len(events))
+        nontrivial = ev['out'] == 'ok' and (any(x == 'm' for x in ev.get('pat', [])) or api == 'atom')
+        ctx.case(nontrivial_id=key if nontrivial else None)
+
+    mark('lookups_all_rows')
+    res = cases_bg['scat'].finish(['Cases_AtomTables (scat)'])[0]
+    res_atom = cases_bg['atom'].finish(['Cases_AtomTables (atom)'])[0]
+    if not res_atom.tagged('NEAR') or not res.tagged('NEAR'):
+        raise MachineryError('Cases_AtomTables did not report its near-miss sets')
     facts = res.tagged('FACT')
     if len(facts) != 5:
         raise MachineryError(f'expected 5 data facts, got {facts}')
@@ -250,47 +449,36 @@ def run(ctx):
     if not cnt or tuple(cnt[0][1:]) != counts:
         raise MachineryError(f'TLC and the harness read different tables: {cnt} vs {counts}')
 
-    events, infos = [], []
-
-    def add(ev, info=None):
-        events.append(ev)
-        infos.append(info)
-
-    # ---- 3a. all rows, in a seeded random order, each looked up again later (memoised or not)
-    order = ([('scat', r['name']) for r in t['scat']] + [('atom', r['name']) for r in t['weights']]
-             + [('atom', r['name']) for r in t['masses']])
-    ctx.rng.shuffle(order)
-    repeats = ctx.rng.sample(order, 600 if ctx.thorough else 150)
-    first = {}
-    for api, name in order + repeats + order[:100]:
-        ev, obj = (_lookup_scat if api == 'scat' else _lookup_atom)(ctx, tb, name, len(events))
-        add(ev, {'api': api, 'name': name})
-        key = (api, name)
-        sig = json.dumps({k: v for k, v in ev.items() if k != 'tid'}, sort_keys=True)
-        if key in first and first[key] != sig:
-            ctx.violation(f'{api} lookup: a repeated lookup of the same name gives a different answer',
-                          {'name': name, 'first': first[key], 'again': sig})
-        first.setdefault(key, sig)
-        nontrivial = ev['out'] == 'ok' and (any(x == 'm' for x in ev.get('pat', [])) or api == 'atom')
-        ctx.case(nontrivial_id=key if nontrivial else None)
-
+    mark('tlc_cases_wait')
     # ---- 3b. near-miss names enumerated by TLC (spec -> code); the expected outcome is checked directly
     #          and the event is judged again by TLC
-    n_near = 0
-    with open(near_f) as fh:
-        for line in fh:
-            rec = json.loads(line)
+    n_near = {}
+    near_lines = []
+    near_recs = [json.loads(line) for p in ('scat', 'atom') for line in open(near_f[p])]
+    if True:
+        for rec in near_recs:
             name = _name(rec['cp'])
             ev, _ = (_lookup_scat if rec['api'] == 'scat' else _lookup_atom)(ctx, tb, name, len(events))
-            add(ev, {'api': rec['api'], 'name': name, 'near': True, 'expect': rec['expect']})
-            n_near += 1
-            if (rec['expect'] == 'reject') != (ev['out'] == 'raised'):
-                pass  # TLC reports it with the clause; nothing to add here
+            add(ev, {'api': rec['api'], 'name': name, 'near': True, 'expect': rec['expect'], 'src': rec['src']})
+            near_lines.append(len(events))
+            n_near[rec['src']] = n_near.get(rec['src'], 0) + 1
             ctx.case(nontrivial_id=(rec['api'], name) if rec['expect'] != 'reject' else None)
     ctx.extra['near_miss_cases'] = n_near
 
+    mark('near_miss_lookups')
     # ---- 4. attenuation
     n_mu = 0
+    mu_lines = []
+
+    def mu(S, nontrivial):
+        nonlocal n_mu
+        ev, info = _mu_event(ctx, len(events), S)
+        add(ev, info)
+        mu_lines.append(len(events))
+        n_mu += 1
+        ctx.case(nontrivial_id=nontrivial)
+        return ev, info
+
     with open(att_f) as fh:
         grid = [json.loads(x) for x in fh]
     for i, rec in enumerate(grid):
@@ -304,47 +492,138 @@ def run(ctx):
             # not representable after the unit change: keep the spec's own units for this case
             lam_unit, n_unit, lam_u, n_u = 'angstrom', 'angstrom', lam, n
         exact_inputs = F(float(lam_u)) == lam_u and F(float(n_u)) == n_u and F(float(ss)) == ss and F(float(sa)) == sa
-        sp = ScatteringParams('Fake', absorption_cross_section=sc.scalar(float(sa), unit='angstrom**2'),
+        # the two cross-sections in different area units where the numbers stay exact
+        sa_unit = ('angstrom**2', 'fm**2', 'pm**2', 'barn')[(i // 16) % 4]
+        sa_u = sa * AREA_TO_M2['angstrom**2'] / AREA_TO_M2[sa_unit]
+        if F(float(sa_u)) != sa_u:
+            sa_unit, sa_u = 'angstrom**2', sa
+        sp = ScatteringParams('Fake', absorption_cross_section=sc.scalar(float(sa_u), unit=sa_unit),
                               total_scattering_cross_section=sc.scalar(float(ss), unit='angstrom**2'))
         small = {'n': rec['n'], 'ss': rec['ss'], 'sa': rec['sa'], 'lam': rec['lam'], 'want': rec['mu']}
-        ev, info = _mu_event(ctx, len(events), sp, n_u, n_unit, lam_u, lam_unit, ss, sa, F(1, 10**20),
-                             small=small if exact_inputs else None)
+        # number types that hold the very same numbers (so that the spec's exact value stays the expectation)
+        wl_type = ctx.rng.choice(_types_for(lam_u, True)) if exact_inputs and i % 2 else 'float64'
+        n_type = ctx.rng.choice(_types_for(n_u, True)) if exact_inputs and i % 3 == 0 else 'float64'
+        S = {'sp': sp, 'n': n_u, 'n_unit': n_unit, 'lam': [lam_u], 'lam_unit': lam_unit,
+             'ss_m2': F(float(ss)) * AREA_TO_M2['angstrom**2'], 'sa_m2': F(float(sa_u)) * AREA_TO_M2[sa_unit],
+             'small': small if exact_inputs else None, 'wl_type': wl_type, 'n_type': n_type, 'twice': i % 5 == 0}
+        ev, info = mu(S, ('mu-grid', i) if sa != 0 else None)
         if exact_inputs:
             # the spec's value (1/angstrom) must be what the harness' formula gives (1/m)
             if F(*rec['mu']) * 10**10 != info['want_exact']:
                 raise MachineryError(f'harness formula and spec Attenuation disagree on {rec}')
-        info.update(grid=rec)
-        add(ev, info)
-        n_mu += 1
-        ctx.case(nontrivial_id=('mu-grid', i) if sa != 0 else None)
+        info.update(grid=rec, cross_section_units=f'angstrom**2, {sa_unit}')
+    # the grid's wavelengths as arrays (per density / cross-section pair): list, unsorted list, transposed 2-d
+    by_mat = {}
+    for rec in grid:
+        by_mat.setdefault((tuple(rec['n']), tuple(rec['ss']), tuple(rec['sa'])), []).append(rec)
+    for j, ((n_, ss_, sa_), recs) in enumerate(sorted(by_mat.items())):
+        n, ss, sa = F(*n_), F(*ss_), F(*sa_)
+        if not all(F(float(x)) == x for x in (n, ss, sa)):
+            continue
+        lams = sorted({F(*r['lam']) for r in recs})
+        lams = [x for x in lams if F(float(x)) == x][:4]
+        if len(lams) < 4:
+            lams = (lams + [F(1, 2), F(3), F(5, 4), F(7)])[:4]
+        lay = ('1d', '1d_unsorted', '2d_transposed')[j % 3]
+        if lay != '1d':
+            lams = [lams[2], lams[0], lams[3], lams[1]]
+        sp = ScatteringParams('Fake', absorption_cross_section=sc.scalar(float(sa), unit='angstrom**2'),
+                              total_scattering_cross_section=sc.scalar(float(ss), unit='angstrom**2'))
+        wl_type = 'float32' if j % 4 == 1 and all(F(float(np.float32(float(x)))) == x for x in lams) else 'float64'
+        S = {'sp': sp, 'n': n, 'n_unit': 'angstrom', 'lam': lams, 'lam_unit': 'angstrom',
+             'ss_m2': ss * AREA_TO_M2['angstrom**2'], 'sa_m2': sa * AREA_TO_M2['angstrom**2'], 'small': None,
+             'wl_type': wl_type, 'n_type': 'float64', 'lay': lay, 'twice': j % 2 == 0}
+        mu(S, ('mu-array', j) if sa != 0 else None)
+
     # real isotopes: both cross-sections tabulated
     cand = [r for r in t['scat'] if r['f'][12] != '' and r['f'][14] != '']
-    picks = cand if ctx.thorough else ctx.rng.sample(cand, 80)
+    if ctx.thorough:
+        picks = cand
+    else:
+        # the extremes of the tabulated cross-sections always, a seeded sample of the rest
+        by_sa = sorted(cand, key=lambda r: A.dec(r['f'][14]))
+        by_ss = sorted(cand, key=lambda r: A.dec(r['f'][12]))
+        nz = [r for r in by_sa if A.dec(r['f'][14]) != 0]
+        fixed = by_sa[:3] + nz[:6] + by_sa[-6:] + by_ss[:4] + by_ss[-4:]
+        names = {r['name'] for r in fixed}
+        picks = fixed + ctx.rng.sample([r for r in cand if r['name'] not in names], 70)
+    # the first call in a unit the warm-up is unlikely to have used is a single precision / integer one
+    fresh_units = ['fm', 'mm', 'cm', 'um']
     for r in picks:
         try:
             sp = ScatteringParams.for_isotope(r['name'])
         except Exception:  # noqa: BLE001  (already reported by the lookup events)
             continue
-        for _ in range(3 if ctx.thorough else 2):
-            lam_unit = ctx.rng.choice(['angstrom', 'nm', 'pm', 'm', 'um'])
-            lam = F(ctx.rng.choice([0.1, 0.25, 1.0, 1.7982, 2.5, 6.0, 20.0])) * LENGTH_TO_M['angstrom'] / LENGTH_TO_M[lam_unit]
-            n_unit = ctx.rng.choice(['angstrom', 'nm', 'pm', 'm'])
+        ss_m2, sa_m2 = A.dec(r['f'][12]) * AREA_TO_M2['barn'], A.dec(r['f'][14]) * AREA_TO_M2['barn']
+        for k in range(3 if ctx.thorough else 2):
+            if fresh_units and k == 0:
+                lam_unit = fresh_units.pop()
+                lam_A = F(2)
+                lam = lam_A * LENGTH_TO_M['angstrom'] / LENGTH_TO_M[lam_unit]
+                types = [x for x in _types_for(lam, False) if x != 'float64']
+                seq = [ctx.rng.choice(types), 'float64']
+            else:
+                lam_unit = ctx.rng.choice(['angstrom', 'nm', 'pm', 'm', 'um'])
+                lam = F(ctx.rng.choice([0.1, 0.25, 1.0, 1.7982, 2.5, 6.0, 20.0])) * LENGTH_TO_M['angstrom'] / LENGTH_TO_M[lam_unit]
+                seq = [ctx.rng.choice(_types_for(lam, False)) if ctx.rng.random() < 0.3 else 'float64']
+            n_unit = ctx.rng.choice(['angstrom', 'nm', 'nm', 'pm', 'm', 'cm', 'um'])
             n = F(ctx.rng.choice([0.001, 0.0722, 0.5, 1.0, 3.0])) * (LENGTH_TO_M[n_unit] / LENGTH_TO_M['angstrom']) ** 3
-            ev, info = _mu_event(ctx, len(events), sp, n, n_unit, lam, lam_unit, A.dec(r['f'][12]), A.dec(r['f'][14]),
-                                 F(1, 10**28))
-            info.update(isotope=r['name'])
-            add(ev, info)
-            n_mu += 1
-            ctx.case(nontrivial_id=('mu', r['name'], lam_unit, n_unit))
+            whole = ctx.rng.random() < 0.3 and n >= 1
+            if whole:
+                n = F(round(n))                                         # an integer number density, handed over as such
+            for wl_type in seq:
+                n_type = ctx.rng.choice(_types_for(n, False)) if ctx.rng.random() < 0.3 else 'float64'
+                ints = [x for x in _types_for(n, False) if x.startswith('int')]
+                if whole and ints and ctx.rng.random() < 0.8:
+                    n_type = ctx.rng.choice(ints)
+                S = {'sp': sp, 'n': n, 'n_unit': n_unit, 'lam': [lam], 'lam_unit': lam_unit, 'ss_m2': ss_m2, 'sa_m2': sa_m2,
+                     'small': None, 'wl_type': wl_type, 'n_type': n_type, 'twice': ctx.rng.random() < 0.2}
+                _, info = mu(S, ('mu', r['name'], lam_unit, n_unit, wl_type, n_type))
+                info.update(isotope=r['name'])
         # integer-typed wavelengths (2 angstrom, 1 nm, 180 pm, ...): same law
+        pool = {}
         lam_unit, lam_i = ctx.rng.choice([('angstrom', 1), ('angstrom', 2), ('angstrom', 6), ('nm', 1), ('nm', 2), ('pm', 180), ('pm', 250)])
-        ev, info = _mu_event(ctx, len(events), sp, F(0.0722), 'angstrom', F(lam_i), lam_unit, A.dec(r['f'][12]), A.dec(r['f'][14]),
-                             F(1, 10**28), as_int=True)
+        S = {'sp': sp, 'n': F(0.0722), 'n_unit': 'angstrom', 'lam': [F(lam_i)], 'lam_unit': lam_unit, 'ss_m2': ss_m2, 'sa_m2': sa_m2,
+             'small': None, 'wl_type': ctx.rng.choice(['int64', 'int32']), 'n_type': 'float64', 'pool': pool}
+        _, info = mu(S, ('mu-int', r['name'], lam_unit, lam_i))
         info.update(isotope=r['name'])
-        add(ev, info)
-        n_mu += 1
-        ctx.case(nontrivial_id=('mu-int', r['name'], lam_unit, lam_i))
+        # the same Material object asked for the same NUMBER in two units (1 angstrom / 1 nm, 2 angstrom / 2 nm)
+        v = ctx.rng.choice([1, 2])
+        typ = ctx.rng.choice(['float64', 'float64', 'int64'])
+        for lam_unit in ctx.rng.sample(['angstrom', 'nm'], 2):
+            S = {'sp': sp, 'n': F(0.0722), 'n_unit': 'angstrom', 'lam': [F(v)], 'lam_unit': lam_unit, 'ss_m2': ss_m2,
+                 'sa_m2': sa_m2, 'small': None, 'wl_type': typ, 'n_type': 'float64', 'pool': pool, 'reused': True}
+            _, info = mu(S, ('mu-same-number', r['name'], lam_unit, v))
+            info.update(isotope=r['name'])
+        # the tabulated numbers without their uncertainties with a list of wavelengths
+        if r['f'][13] == '' and r['f'][15] == '':
+            lams = [F(x) for x in ctx.rng.sample([0.1, 0.5, 1.0, 1.7982, 4.0, 9.0, 20.0], 4)]
+            lay = ctx.rng.choice(['1d_unsorted', '2d_transposed', '1d_unsorted'])
+            S = {'sp': sp, 'n': F(0.0722), 'n_unit': 'angstrom', 'lam': lams, 'lam_unit': 'angstrom', 'ss_m2': ss_m2,
+                 'sa_m2': sa_m2, 'small': None, 'wl_type': 'float64', 'n_type': 'float64', 'lay': lay, 'twice': True,
+                 'pool': pool}
+            _, info = mu(S, ('mu-array', r['name']))
+            info.update(isotope=r['name'])
     ctx.extra['attenuation_cases'] = n_mu
+
+    mark('attenuation')
+    # ---- 5. second evaluation (item 6): a sample of lookups and attenuation cases again, last ones first
+    n_first = len(events)
+    again = ctx.rng.sample(sorted(first_line.items()), 600 if ctx.thorough else 250) + [
+        ((infos[l - 1]['api'], infos[l - 1]['name']), l) for l in ctx.rng.sample(near_lines, 600 if ctx.thorough else 250)]
+    for (api, name), line in reversed(again):
+        ev, _ = (_lookup_scat if api == 'scat' else _lookup_atom)(ctx, tb, name, len(events))
+        ev['pass'], ev['of'] = 2, line
+        add(ev, dict(infos[line - 1], second=True))
+        ctx.case()
+    for line in reversed(ctx.rng.sample(mu_lines, min(len(mu_lines), 300 if ctx.thorough else 120))):
+        ev, info = _mu_event(ctx, len(events), infos[line - 1]['S'], first=events[line - 1], of=line)
+        for k in ('isotope', 'grid'):
+            if k in infos[line - 1]:
+                info[k] = infos[line - 1][k]
+        add(ev, info)
+        ctx.case()
+    ctx.extra['events_second_evaluation'] = len(events) - n_first
 
     for kind in ('scat', 'atom', 'mu'):
         e = next((e for e in events if e['ev'] == kind and (kind == 'mu' or e['out'] == 'ok')), None)
@@ -353,7 +632,13 @@ def run(ctx):
     ctx.extra['events'] = {k: sum(1 for e in events if e['ev'] == k) for k in ('scat', 'atom', 'mu')}
     ctx.extra['lookups_rejected'] = sum(1 for e in events if e.get('out') == 'raised')
     ctx.extra['rejection_classes'] = sorted({e['exc'] for e in events if 'exc' in e})
+    mus = [e for e in events if e['ev'] == 'mu']
+    ctx.extra['attenuation_presentations'] = {
+        'wavelength_types': {x: sum(1 for e in mus if e['wl_type'] == x) for x in ('float64', 'float32', 'int64', 'int32')},
+        'density_types': {x: sum(1 for e in mus if e['n_type'] == x) for x in ('float64', 'float32', 'int64', 'int32')},
+        'layouts': {x: sum(1 for e in mus if e['lay'] == x) for x in ('0d', '1d', '1d_unsorted', '2d_transposed')}}
 
+    mark('second_evaluation')
     tf = ctx.tmp / 'c20.ndjson'
     write_ndjson(tf, [{k: v for k, v in e.items() if k != 'exc'} for e in events])
     tr = ctx.tlc('atoms/Trace_AtomTables.tla', workers=1, env={'TRACE_FILE': str(tf), 'TABLES_FILE': full},
@@ -363,13 +648,16 @@ def run(ctx):
     if not done or done[0][1] != len(events):
         raise MachineryError(f'trace validation incomplete: {done} vs {len(events)} events')
     ctx.traces(len(events))
-    _trace_control(ctx, events, {line for _, line, _tid, _c in tr.tagged('REJECT')}, full)
-    for _, line, _tid, clause in tr.tagged('REJECT'):
+    mark('tlc_trace')
+    rejected = {line: clause for _, line, _tid, clause in tr.tagged('REJECT')}
+    for line in sorted(rejected):
+        clause = rejected[line]
         ev, info = events[line - 1], infos[line - 1]
         if clause.startswith('oracle_') or clause == 'unknown_event':
             raise MachineryError(f'harness and TLA+ specification disagree: {clause} on {ev} {info}')
+        second = ev['pass'] == 2 and ev['of'] not in rejected
         if ev['ev'] == 'mu':
-            ctx.violation(f'Material.attenuation_coefficient: {clause.replace("_", " ")}', {'event': ev, 'info': info})
+            ctx.violation(_mu_key(ev, clause, second), {'event': ev, 'info': {k: v for k, v in info.items() if k != 'S'}})
             continue
         api = 'ScatteringParams.for_isotope' if ev['ev'] == 'scat' else 'Atom.for_isotope'
         name = info['name']
@@ -378,69 +666,105 @@ def run(ctx):
             key = f'{api}: untabulated name accepted ({cls})'
         else:
             key = f'{api}: {clause.replace("_", " ")}'
-        ctx.violation(key, {'name': name, 'event': ev, 'info': info})
+        ctx.violation(key + (SECOND if second else ''), {'name': name, 'event': ev, 'info': info})
+
+    _trace_control(ctx, t, grid, full)
+    mark('trace_control')
+    model_bg.finish(['AtomTables model (histories)', 'AtomTables model (wide universe)'] + ['negative control'] * len(bugs))
 
     # ---------------------------------------------------------------- growth (hosted here for its time budget):
     # the bundled quadrature tables as symmetric measures, the disk x line product construction, the node-count
     # rule of Cylinder.quadrature and the labelled layout of compute_transmission_map
     # (spec/absorption/Growth_*.tla; deviations are GROWTH-FINDINGs, not violations of C20)
+    mark('tlc_model_wait')
     from .. import lib_growth_absorption
     lib_growth_absorption.run(ctx)
+    mark('growth_module')
 
 
-def _trace_control(ctx, events, rejected, full):
-    """Vacuity guard of the trace specification: accepted events corrupted in one field must be rejected by
-    TLC with the expected clause (a removed event is caught by the DONE count)."""
-    import copy
+def _trace_control(ctx, t, grid, full):
+    """Vacuity guard of the trace specification.  Synthetic events are built from the tables and the
+    specification's attenuation grid alone (nothing the implementation returned enters): TLC must accept each,
+    and must reject every copy corrupted in one field with the expected clause (a removed event is caught by
+    the DONE count)."""
+    def pat(f):
+        return ['m' if x != '' else 'b' for x in f]
 
-    def pick(pred):
-        return next((copy.deepcopy(e) for i, e in enumerate(events) if (i + 1) not in rejected and pred(e)), None)
+    def cps(name):
+        return [ord(c) for c in name]
 
-    bad = []
-    e = pick(lambda e: e['ev'] == 'scat' and e['out'] == 'ok' and e['pat'][0] == 'm' and e['pat'][1] == 'b')
-    if e:
-        p1, p2, p3 = (list(e['pat']) for _ in range(3))
-        p1[0], p2[1], p3[0] = 'b', 'x', 'x'
-        bad += [(dict(e, pat=p1), 'nothing_where_table_has_value'), (dict(e, pat=p2), 'value_where_table_is_blank'),
-                (dict(e, pat=p3), 'value_differs_from_table'), (dict(e, out='raised'), 'tabulated_name_rejected'),
-                (dict(e, row=e['row'] % 300 + 1), 'oracle_row_is_not_the_named_row'), (dict(e, units_ok=False), 'wrong_unit')]
-    e = pick(lambda e: e['ev'] == 'scat' and e['out'] == 'raised')
-    if e:
-        bad.append((dict(e, out='ok'), 'unknown_name_accepted'))
-    e = pick(lambda e: e['ev'] == 'atom' and e['out'] == 'ok' and e['mrow'] == 0 and e['wpat'][0] == 'm')
-    if e:
-        bad += [(dict(e, z=e['z'] + 1), 'Z_differs_from_table'), (dict(e, mpat=['m', 'm']), 'mass_for_an_element'),
-                (dict(e, wpat=['b', 'b']), 'no_weight_although_tabulated')]
-    e = pick(lambda e: e['ev'] == 'atom' and e['out'] == 'ok' and e['mrow'] > 0)
-    if e:
-        bad += [(dict(e, mpat=['b', 'b']), 'no_mass_for_an_isotope'), (dict(e, mpat=['x', 'm']), 'mass_differs_from_table')]
-    e = pick(lambda e: e['ev'] == 'atom' and e['out'] == 'ok' and e['wpat'][0] == 'b')
-    if e:
-        bad.append((dict(e, wpat=['m', 'm']), 'weight_where_none_is_tabulated'))
-    e = pick(lambda e: e['ev'] == 'mu' and e['small'])
-    if e:
-        bad += [(dict(e, rel_ok=False), 'attenuation_differs_from_law'), (dict(e, dim_ok=False), 'attenuation_is_not_an_inverse_length'),
-                (dict(e, want=[e['want'][0] + 1, e['want'][1]]), 'oracle_attenuation_formula')]
-    if len(bad) < 12:
-        raise MachineryError(f'trace control: only {len(bad)} corrupted events could be built')
-    for i, (b, _) in enumerate(bad):
+    look = {'out': 'ok', 'units_ok': True, 'name_ok': True, 'pass': 1, 'of': 0}
+    si, srow = next((i, r) for i, r in enumerate(t['scat']) if r['f'][0] != '' and r['f'][1] == '')
+    scat = dict(look, ev='scat', cp=cps(srow['name']), row=si + 1, pat=pat(srow['f']))
+    unknown = dict(look, ev='scat', cp=cps('Xx'), row=0, pat=['b'] * 16, out='raised')
+    windex = {r['name']: (i, r) for i, r in enumerate(t['weights'])}
+    wi, wrow = next((i, r) for i, r in enumerate(t['weights']) if r['f'][1] != '')
+    elem = dict(look, ev='atom', cp=cps(wrow['name']), wrow=wi + 1, mrow=0, z=int(wrow['f'][0]), wpat=pat(wrow['f'][1:3]),
+                mpat=['b', 'b'])
+    bi, brow = next((i, r) for i, r in enumerate(t['weights']) if r['f'][1] == '')
+    noweight = dict(look, ev='atom', cp=cps(brow['name']), wrow=bi + 1, mrow=0, z=int(brow['f'][0]), wpat=['b', 'b'],
+                    mpat=['b', 'b'])
+    mi, mrow = next((i, r) for i, r in enumerate(t['masses']) if windex[r['name'].lstrip('0123456789')][1]['f'][1] != '')
+    ei, erow = windex[mrow['name'].lstrip('0123456789')]
+    iso = dict(look, ev='atom', cp=cps(mrow['name']), wrow=ei + 1, mrow=mi + 1, z=int(erow['f'][0]), wpat=pat(erow['f'][1:3]),
+               mpat=pat(mrow['f']))
+    rec = next(r for r in grid if r['sa'][0] != 0)
+    mu = {'ev': 'mu', 'small': True, 'n': rec['n'], 'ss': rec['ss'], 'sa': rec['sa'], 'lam': rec['lam'], 'want': rec['mu'],
+          'raised': False, 'dim_ok': True, 'rel_ok': True, 'kept': True, 'wl_type': 'float64', 'n_type': 'float64',
+          'lay': '0d', 'case': 5, 'pass': 1, 'of': 0}
+    good = [scat, unknown, elem, noweight, iso, mu]
+    cases = [(g, 'ok') for g in good] + [(dict(g, **{'pass': 2, 'of': i + 1}), 'ok') for i, g in enumerate(good)]
+    p1, p2, p3 = (list(scat['pat']) for _ in range(3))
+    p1[0], p2[1], p3[0] = 'b', 'x', 'x'
+    cases += [(dict(scat, pat=p1), 'nothing_where_table_has_value'), (dict(scat, pat=p2), 'value_where_table_is_blank'),
+              (dict(scat, pat=p3), 'value_differs_from_table'), (dict(scat, out='raised'), 'tabulated_name_rejected'),
+              (dict(scat, row=scat['row'] % 300 + 1), 'oracle_row_is_not_the_named_row'), (dict(scat, units_ok=False), 'wrong_unit'),
+              (dict(scat, name_ok=False), 'isotope_field_is_not_the_query'),
+              (dict(scat, **{'pass': 2, 'of': 2}), 'oracle_replay_is_not_the_same_case'),
+              (dict(scat, **{'pass': 2, 'of': 0}), 'oracle_replay_is_not_the_same_case'),
+              (dict(scat, **{'pass': 2, 'of': 1, 'pat': p3}), 'value_differs_from_table'),
+              (dict(unknown, out='ok'), 'unknown_name_accepted'),
+              (dict(elem, z=elem['z'] + 1), 'Z_differs_from_table'), (dict(elem, mpat=['m', 'm']), 'mass_for_an_element'),
+              (dict(elem, wpat=['b', 'b']), 'no_weight_although_tabulated'),
+              (dict(elem, wpat=['x', elem['wpat'][1]]), 'weight_differs_from_table'),
+              (dict(iso, mpat=['b', 'b']), 'no_mass_for_an_isotope'), (dict(iso, mpat=['x', 'm']), 'mass_differs_from_table'),
+              (dict(noweight, wpat=['m', 'm']), 'weight_where_none_is_tabulated'),
+              (dict(mu, rel_ok=False), 'attenuation_differs_from_law'),
+              (dict(mu, dim_ok=False), 'attenuation_is_not_an_inverse_length'),
+              (dict(mu, raised=True), 'attenuation_raised'),
+              (dict(mu, kept=False), 'wavelength_argument_modified'),
+              (dict(mu, want=[mu['want'][0] + 1, mu['want'][1]]), 'oracle_attenuation_formula'),
+              (dict(mu, wl_type='float16'), 'oracle_unknown_number_type'),
+              (dict(mu, lay='3d'), 'oracle_unknown_layout'),
+              (dict(mu, **{'pass': 2, 'of': 6, 'case': 7}), 'oracle_replay_is_not_the_same_case'),
+              (dict(mu, **{'pass': 2, 'of': 6, 'lay': '1d', 'wl_type': 'int32', 'rel_ok': False}), 'attenuation_differs_from_law')]
+    out = []
+    for i, (b, _) in enumerate(cases):
+        b = dict(b)
         b['tid'] = i
-        b.pop('exc', None)
+        out.append(b)
     tf = ctx.tmp / 'c20-control.ndjson'
-    write_ndjson(tf, [b for b, _ in bad])
+    write_ndjson(tf, out)
     tr = ctx.tlc('atoms/Trace_AtomTables.tla', workers=1, env={'TRACE_FILE': str(tf), 'TABLES_FILE': full},
                  timeout=600, count=False)
     require_ok(ctx, tr, 'Trace_AtomTables (control)')
     got = {line: clause for _, line, _tid, clause in tr.tagged('REJECT')}
-    for i, (_, want) in enumerate(bad):
-        if got.get(i + 1) != want:
-            raise MachineryError(f'trace control: corrupted event {i + 1} expected {want}, TLC said {got.get(i + 1)}')
-    ctx.extra['trace_control'] = f'{len(bad)} corrupted events, all rejected with the expected clause'
+    for i, (_, want) in enumerate(cases):
+        if got.get(i + 1, 'ok') != want:
+            raise MachineryError(f'trace control: event {i + 1} expected {want}, TLC said {got.get(i + 1, "ok")}')
+    ctx.extra['trace_control'] = (f'{len(cases)} synthetic events (independent of the implementation): '
+                                  f'{sum(1 for _, w in cases if w == "ok")} accepted, the corrupted ones rejected with the expected clause')
 
 
 def _near_class(name, tb, api):
     """Stable description of how an accepted unknown name relates to a tabulated one."""
+    import re
+
     names = tb.scat if api == 'scat' else {**tb.weights, **tb.masses}
+    other = {**tb.weights, **tb.masses} if api == 'scat' else tb.scat
+    if name in other:
+        return ('element or nuclide tabulated only in the weight / mass tables' if api == 'scat'
+                else 'name tabulated only in the scattering table')
     if name.strip() != name and name.strip() in names:
         return 'blank added to a tabulated name'
     if name != name.strip() or ' ' in name:
@@ -448,6 +772,12 @@ def _near_class(name, tb, api):
     low = {k.lower(): k for k in names}
     if name.lower() in low:
         return 'case variant of a tabulated name'
+    m = re.fullmatch(r'\^?([A-Z][a-z]?)[-_]?(\d+)', name) or re.fullmatch(r'\^?(\d+)[-_]?([A-Z][a-z]?)', name)
+    if m:
+        a, b = m.group(1), m.group(2)
+        iso = (b + a) if a[0].isalpha() else (a + b)
+        if iso != name and iso in names:
+            return 'other notation of a tabulated isotope'
     if any(k.startswith(name) for k in names):
         return 'proper prefix of a tabulated name'
     if any(name.startswith(k) for k in names):
@@ -470,11 +800,14 @@ META = {
             'the full tables that names are unique, follow the element/isotope syntax, every isotope has its element, '
             'and Z equals the position in an independently written periodic table. Atom.for_isotope and '
             'ScatteringParams.for_isotope are then called for every row of the three tables (random order, repeats) '
-            'and for every TLC-generated near-miss name; each field is compared with float(text) of the CSV file '
+            'and for every TLC-generated near-miss name (cut, extended, re-cased, other notations, neighbouring mass '
+            'numbers, names of the other tables); each field is compared with float(text) of the CSV file '
             '(exact; variance = float(text)^2 to 1 ulp; unit; blank => None) and TLC judges every recorded lookup: '
             'tabulated or not, row identity, blank pattern per column, Z, mass only for isotopes, weight only where '
             'tabulated, rejection of every other name. Material.attenuation_coefficient is compared with '
-            'n(sigma_s + sigma_a*lambda/1.7982 A) in exact rational arithmetic (1e-14) in several units.',
+            'n(sigma_s + sigma_a*lambda/1.7982 A) in exact rational arithmetic (1e-14) in several units, number types '
+            '(float64, float32, int64, int32) and wavelength layouts (0-d, lists, transposed 2-d), with repeated use of '
+            'the same objects; a sample of all cases is evaluated a second time at the end of the run.',
     'note': 'Trusted: TLC, Python\'s csv/float parsing, scipp unit conversion to 1/m. float(text) equality and the '
             '1e-14 closeness are evaluated by the harness (TLC has no floats) and handed to TLC as letters/booleans. '
             'Sharing of cached mutable objects is C09, not checked here.',
